@@ -69,59 +69,64 @@ def candidates(node):
         yield tuple(lst)
 
 
+# Shrinking effort is bounded twice: by a number of candidate evaluations per failure, and by wall time
+# per worker process -- on a badly broken tree thousands of cases fail and every candidate may run
+# into the engine's step budget.  (Time only limits how small the replay file gets, never the verdict.)
+BUDGET_S = 25.0
+_spent = [0.0]
+
+
+class _Budget:
+    def __init__(self, max_steps):
+        import time
+        self.left = max_steps if _spent[0] < BUDGET_S else min(max_steps, 40)
+        self.t0 = time.time()
+
+    def ok(self):
+        import time
+        self.left -= 1
+        return self.left >= 0 and time.time() - self.t0 < BUDGET_S
+
+    def close(self):
+        import time
+        _spent[0] += time.time() - self.t0
+
+
 def shrink(node, fails, max_steps=4000):
-    steps = [0]
+    b = _Budget(max_steps)
 
-    def try_(n):
-        steps[0] += 1
-        if steps[0] > max_steps:
-            return False
-        try:
-            return fails(n)
-        except Exception:
-            return False
+    def guarded(f):
+        def g(n):
+            if not b.ok():
+                return False
+            try:
+                return f(n)
+            except Exception:
+                return False
+        return g
 
-    improved = True
-    while improved and steps[0] <= max_steps:
-        improved = False
-        # Top-level candidates.
-        for c in candidates(node):
-            if c != node and try_(c):
-                node = c
+    try:
+        improved = True
+        while improved and b.left > 0:
+            improved = False
+            small = shrink_once(node, guarded(fails), guarded)
+            if small is not None and small != node:
+                node = small
                 improved = True
-                break
-        if improved:
-            continue
-        # Recurse into children.
-        for path, child in children(node):
-            def sub_fails(c, path=path):
-                return fails(replace_at(node, path, c))
-            small = shrink_once(child, sub_fails, try_)
-            if small is not None:
-                node = replace_at(node, path, small)
-                improved = True
-                break
+    finally:
+        b.close()
     return node
 
 
-def shrink_once(node, fails, try_):
-    """One successful reduction somewhere inside NODE, or None."""
+def shrink_once(node, fails, guarded):
+    """One successful reduction somewhere inside NODE (top level first), or None."""
     for c in candidates(node):
-        if c != node:
-            try:
-                ok = try_wrap(fails, c)
-            except Exception:
-                ok = False
-            if ok:
-                return c
+        if c != node and fails(c):
+            return c
     for path, child in children(node):
         def sub_fails(c, path=path):
             return fails(replace_at(node, path, c))
-        small = shrink_once(child, sub_fails, try_)
+        small = shrink_once(child, sub_fails, guarded)
         if small is not None:
             return replace_at(node, path, small)
     return None
-
-
-def try_wrap(fails, c):
-    return fails(c)
